@@ -65,6 +65,9 @@ func ErrClass(err error) string {
 
 type KV struct{ K, V string }
 
+// ErrRootObject: a walk reported an object whose path is "." (view rooted at a file).
+var ErrRootObject = errors.New("walk reported the view root itself as an object")
+
 func Dump(kvs []KV) string {
 	sort.SliceStable(kvs, func(i, j int) bool { return hx.Enc(kvs[i].K) < hx.Enc(kvs[j].K) })
 	parts := make([]string, len(kvs))
@@ -99,6 +102,13 @@ func WalkAll(ctx context.Context, b storage.ReadBucket, prefix string) ([]KV, er
 		return nil
 	}); err != nil {
 		return nil, err
+	}
+	for _, p := range paths {
+		if p == "." {
+			// a prefix view rooted AT a file reports that file as object "." which no Get can
+			// read back; callers drop such reads from the history
+			return nil, ErrRootObject
+		}
 	}
 	out := make([]KV, 0, len(paths))
 	for _, p := range paths {
